@@ -72,6 +72,7 @@ ResetAll ==
   /\ sentTo' = [c \in Clients |-> <<>>] /\ rxn' = [c \in Clients |-> 0]
   /\ dseq' = [c \in Clients |-> <<>>] /\ iseq' = [c \in Clients |-> <<>>]
   /\ admitted' = {} /\ tmo' = {} /\ flog' = {}
+  /\ UNCHANGED hbvars       \* ping rounds are not replayed here: see the Loop_Timeout guard
 
 \* ---- properties evaluated after every record (only for the client whose history changed) --------
 HardNames == {"ConnectOnce_D", "ConnectBeforeMessages_D", "MessageOncePerClientOrder_D", "DisconnectOnce_D",
@@ -89,9 +90,11 @@ Holds(n, c) ==
     [] n = "RemovedIsDisconnected" -> ((c \in admitted /\ c \notin streams) => CountK(dseq[c], "D") = 1)
     [] n = "DisconnectOnlyIfClosed" -> (Has(dseq[c], "D") => (cst[c] # "open" \/ c \in tmo))
     [] n = "OnlyAdmittedDispatched" -> (dseq[c] # <<>> => c \in admitted)
+    \* every prefix was checked after the record that produced it: only the newest start is looked at
     [] n = "InvokedWasDispatched" ->
-          \A x \in DOMAIN iseq[c] : /\ \E y \in DOMAIN dseq[c] : dseq[c][y] = iseq[c][x]
-                                    /\ \A x2 \in DOMAIN iseq[c] : iseq[c][x2] = iseq[c][x] => x2 = x
+          (iseq[c] # <<>> =>
+             LET x == Len(iseq[c]) IN /\ \E y \in DOMAIN dseq[c] : dseq[c][y] = iseq[c][x]
+                                      /\ \A x2 \in 1..(x - 1) : iseq[c][x2] # iseq[c][x])
     [] n = "ConnectOnce_I" -> ConnectOnce(iseq[c])
     [] n = "ConnectBeforeMessages_I" -> ConnectBeforeMessages(iseq[c])
     [] n = "MessageOncePerClientOrder_I" -> MessageOncePerClientOrder(iseq[c])
@@ -104,8 +107,10 @@ Violated == IF lastc = NoClient THEN {} ELSE {n \in CheckedNames : ~Holds(n, las
 CanTake(w) == /\ TakePre(w)
               /\ LET nx == NextInvoke(w) IN
                  nx.ev = "Invoke" /\ Head(q).k = nx.k /\ Head(q).c = nx.c /\ Head(q).m = nx.m
-SilentTake(w) == CanTake(w) /\ TakeEff(w) /\ UNCHANGED loopvars /\ UNCHANGED tvars
-SilentCtl(c)  == RecvCtlPre(c) /\ RecvCtlEff(c) /\ UNCHANGED loopvars /\ UNCHANGED tvars
+\* (a silent step changes no history: nothing to re-check after it)
+SilentT == lastc' = NoClient /\ UNCHANGED <<i, run, hb, rmp, qs, ic, rend, bad>>
+SilentTake(w) == CanTake(w) /\ TakeEff(w) /\ UNCHANGED loopvars /\ UNCHANGED hbvars /\ SilentT
+SilentCtl(c)  == RecvCtlPre(c) /\ RecvCtlEff(c) /\ UNCHANGED loopvars /\ UNCHANGED hbvars /\ SilentT
 SilentEnabled == (\E w \in Workers : CanTake(w)) \/ (\E c \in Clients : RecvCtlPre(c))
 Silent == (\E w \in Workers : SilentTake(w)) \/ (\E c \in Clients : SilentCtl(c))
 
@@ -138,6 +143,7 @@ Guard ==
   CASE e.ev = "C_Connect"  -> IsC(e.c) /\ ConnectPre(e.c)
     [] e.ev = "C_Send"     -> IsC(e.c) /\ SendPre(e.c) /\ e.m = sent[e.c] + 1
     [] e.ev = "C_Ping"     -> IsC(e.c) /\ PingPre(e.c)
+    [] e.ev = "C_Pong"     -> IsC(e.c) /\ cst[e.c] = "open"
     [] e.ev = "C_Close"    -> IsC(e.c) /\ ClosePre(e.c)
     [] e.ev = "C_Vanish"   -> IsC(e.c) /\ VanishPre(e.c, e.k) /\ (e.k = "fin" => hb)
     [] e.ev = "C_Rx"       -> IsC(e.c) /\ RxPre(e.c) /\ sentTo[e.c][rxn[e.c] + 1] = MsgOf(e)
@@ -153,7 +159,13 @@ Guard ==
     [] e.ev = "Loop_Admit" -> LoopOK /\ IsC(e.c) /\ e.c \in pending /\ e.c \notin streams
     [] e.ev = "Loop_RecvMsg" -> LoopOK /\ IsC(e.c) /\ RecvMsgPre(e.c) /\ Head(net[e.c]).m = e.m /\ e.sc = e.c
     [] e.ev = "Loop_RecvErr" -> LoopOK /\ IsC(e.c) /\ RecvErrPre(e.c)
-    [] e.ev = "Loop_Timeout" -> LoopOK /\ IsC(e.c) /\ hb /\ TimeoutPre(e.c)
+    \* The heartbeat may reap a stream whose client is closed or gone, or - record field n = 1 - when the
+    \* harness measured a stall of the loop or of that client's reader long enough for a Pong to be late
+    \* (2 * longest loop gap + longest reader gap >= 3/4 (timeout - interval)).  A client that is open, answers
+    \* every Ping at once (C_Pong records) and is polled by a loop that keeps iterating cannot time out:
+    \* pings leave every <= interval + gap, so a Pong is read within interval + 2 gaps + reader delay < timeout.
+    [] e.ev = "Loop_Timeout" -> /\ LoopOK /\ IsC(e.c) /\ hb /\ e.c \in streams
+                                /\ (cst[e.c] # "open" \/ e.n = 1)
     [] e.ev = "Loop_Remove"  -> rmp # NoClient /\ e.c = rmp
     [] e.ev = "Loop_FlushUni" -> /\ LoopOK /\ outgoing # <<>> /\ Head(outgoing) = MsgOf(e) /\ e.k = "uni"
                                  /\ e.c = e.to
@@ -175,6 +187,10 @@ Effect ==
   CASE e.ev = "C_Connect"  -> ConnectEff(e.c) /\ UNL /\ UNCHANGED <<rmp, qs>>
     [] e.ev = "C_Send"     -> SendEff(e.c) /\ UNL /\ UNCHANGED <<rmp, qs>>
     [] e.ev = "C_Ping"     -> PingEff(e.c) /\ UNL /\ UNCHANGED <<rmp, qs>>
+    [] e.ev = "C_Pong"     -> /\ net' = [net EXCEPT ![e.c] = Append(@, Frame("pong", 0))]
+                              /\ UNCHANGED <<cst, sent, pings, pending, incoming, streams, q, wst, wtask, outgoing, ext,
+                                             shut, sentTo, rxn, dseq, iseq, admitted, tmo, flog>>
+                              /\ UNL /\ UNCHANGED <<rmp, qs>>
     [] e.ev = "C_Close"    -> CloseEff(e.c) /\ UNL /\ UNCHANGED <<rmp, qs>>
     [] e.ev = "C_Vanish"   -> VanishEff(e.c, e.k) /\ UNL /\ UNCHANGED <<rmp, qs>>
     [] e.ev = "C_Rx"       -> RxEff(e.c) /\ UNL /\ UNCHANGED <<rmp, qs>>
@@ -227,26 +243,27 @@ DoReset ==
   /\ rend' = NextReset(i)
   /\ i' = i + 1 /\ UNCHANGED bad
 
-Consume ==
+Consume(v) ==
   /\ i <= N
   /\ IF e.ev = "Reset" THEN DoReset
-     ELSE IF Violated # {} THEN Reject("property", Violated)
+     ELSE IF v # {} THEN Reject("property", v)
      ELSE IF ~Guard THEN Reject("unexplained", {})
-     ELSE /\ Effect
+     ELSE /\ Effect /\ UNCHANGED hbvars
           /\ i' = i + 1
           /\ lastc' = TouchedClient
           /\ ic' = IF e.ev = "Invoke" THEN [ic EXCEPT ![e.w] = @ + 1] ELSE ic
           /\ UNCHANGED <<run, hb, rend, bad>>
 
 \* the last record of a run may leave a property false: one more step reports it
-FinalCheck ==
-  /\ i = N + 1 /\ Violated # {}
-  /\ bad' = Append(bad, [run |-> run, idx |-> N, why |-> "property", inv |-> Violated, rec |-> Rec[N]])
+FinalCheck(v) ==
+  /\ i = N + 1 /\ v # {}
+  /\ bad' = Append(bad, [run |-> run, idx |-> N, why |-> "property", inv |-> v, rec |-> Rec[N]])
   /\ lastc' = NoClient
   /\ UNCHANGED vars /\ UNCHANGED <<i, run, hb, rmp, qs, ic, rend>>
 
-TNext == IF i <= N /\ Rec[i].ev # "Reset" /\ Violated = {} /\ SilentEnabled THEN Silent
-         ELSE Consume \/ FinalCheck
+TNext == LET v == Violated IN
+         IF i <= N /\ Rec[i].ev # "Reset" /\ v = {} /\ SilentEnabled THEN Silent
+         ELSE Consume(v) \/ FinalCheck(v)
 TSpec == TInit /\ [][TNext]_<<vars, tvars>>
 
 \* checked at the last state: every record consumed, no run rejected (the rejected runs are printed
